@@ -17,9 +17,10 @@ theorem fresh16_c : fresh16.c = 16 := by decide +kernel
 theorem fresh16_slot : (slotIn (W.mk 16 fresh16.raw (initVtoc 254 16)).img 16 (initLay 16).cat).isSome = true := by decide +kernel
 theorem fresh16_free : nfree (initVtoc 254 16) 16 = 528 := by decide +kernel
 
-/-- the invariant of the fresh volume, stated on the evaluated components -/
-theorem fresh16_winv : WInv (W.mk fresh16.c fresh16.raw (initVtoc 254 16)) (initSys 16) (initLay 16) := by
-  obtain ⟨w, h, hi, hc⟩ := init_winv (c := 16) (Or.inr rfl)
+/-- the invariant of the fresh volume, stated on the evaluated components, and its reading -/
+theorem fresh16_winv : WInv (W.mk fresh16.c fresh16.raw (initVtoc 254 16)) (initSys 16) (initLay 16) ∧
+    volOf (W.mk fresh16.c fresh16.raw (initVtoc 254 16)).img fresh16.c (initSys 16) (initLay 16) = initVol 16 := by
+  obtain ⟨w, h, hi, hc, hvol⟩ := init_winv (c := 16) (Or.inr rfl)
   have hd : fresh16 = w.toDisk := by unfold fresh16; rw [h]
   have hv : w.v = initVtoc 254 16 := by
     have := fresh16_vtoc; rw [hd] at this; exact (Option.some.inj this)
@@ -27,7 +28,22 @@ theorem fresh16_winv : WInv (W.mk fresh16.c fresh16.raw (initVtoc 254 16)) (init
   have hw : w = W.mk 16 fresh16.raw (initVtoc 254 16) := by
     obtain ⟨wc, wraw, wv⟩ := w
     rw [W.mk.injEq]; exact ⟨hc, hraw, hv⟩
-  rw [fresh16_c, ← hw]; exact hi
+  rw [fresh16_c, ← hw]
+  exact ⟨hi, by rw [hc] at hvol; exact hvol⟩
+
+/-- a file image without a type byte: `write_file` answers RANGE ERROR after it has reserved the T/S list sector -/
+def exN : FImg := { fullPath := [78], fsType := [], chunks := [(0, [1])] }
+
+def errOf {α : Type} (r : R α) : Option Err := match r with | .ok _ => none | .error e => some e
+
+theorem errOf_some {α : Type} {r : R α} {e : Err} (h : errOf r = some e) : r = .error e := by
+  cases r with
+  | ok a => cases h
+  | error e' => unfold errOf at h; simp only [Option.some.injEq] at h; rw [h]
+
+theorem fresh16_exN : errOf (put fresh16 exN).1 = some .range := by decide +kernel
+
+theorem initSys_lt : ∀ u ∈ initSys 16, u < 35 * 16 := by decide +kernel
 
 theorem paths_of_no_tsls {r : Raw} {c : Nat} {sb : List Nat} {L : Lay} (h : L.tsls = []) : (volOf r c sb L).paths = [] := by
   unfold Vol.paths volOf filesOf
